@@ -33,5 +33,8 @@ for name in sorted(os.listdir(os.path.join(HERE, "benign"))):
     res[name] = {"suite_passes": ok, "tier": tier, "false_alarms": alarms}
     print(name, "suite ok" if ok else "SUITE FAILS", "silent" if not alarms else "FALSE ALARM " + "; ".join(alarms), flush=True)
     bad += len(alarms)
-json.dump(res, open(os.path.join(HERE, "benign", "RESULTS-%s.json" % tier), "w"), indent=1)
+out = os.path.join(HERE, "benign", "RESULTS-%s.json" % tier)
+if prefix and os.path.exists(out):   # a partial run updates the stored results instead of replacing them
+    allres = json.load(open(out)); allres.update(res); res = allres
+json.dump(res, open(out, "w"), indent=1, sort_keys=True)
 sys.exit(1 if bad else 0)
